@@ -394,6 +394,14 @@ func genArgs(r *rand.Rand) ([]*ArgNode, bool) {
 		if chance(r, 0.2) {
 			a.Desc = "arg " + a.Name
 		}
+		if isIntType(a.VType) && chance(r, 0.3) {
+			a.Base = pick(r, []int{16, 2, 36, 8}) // a positional reads its own base tag, not the one of the struct around it
+		}
+		if a.VType == "string" && chance(r, 0.08) {
+			a.Map = true
+			as = append(as, a)
+			continue
+		}
 		if i == n-1 && chance(r, 0.5) {
 			a.Slice = true
 			a.ReqTag = pick(r, []string{"", "", "1", "2", "1-2", "0-1", "yes", "-1", "2-"})
@@ -762,6 +770,9 @@ func hasSlice(c *CmdNode) bool {
 }
 
 func posValue(r *rand.Rand, a *ArgNode, valid bool) string {
+	if a.Map {
+		return pick(r, []string{"k:v", "key:a:b", "k", "é:1", ":x", "k:"})
+	}
 	o := &OptNode{Kind: "scalar", VType: a.VType, Base: a.Base}
 	if valid || chance(r, 0.7) {
 		v := validValue(r, o)
